@@ -354,3 +354,25 @@ func init() {
 		return mkSlice(parts)
 	}
 }
+
+func init() {
+	stubs["(*regexp.Regexp).MatchString"] = func(e *Exec, fr *Frame, fn *ssa.Function, a []Value) Value {
+		p := a[0].(Ptr)
+		if e.curFoot != nil {
+			e.curFoot.read(p)
+		}
+		ro := p.Obj.Aux.(*reObj)
+		s := a[1].(StrV)
+		if s.IsCh {
+			return e.tf.Bool(e.reFind(ro, s) != nil)
+		}
+		sre, ok := smtRegex(ro.re)
+		if !ok {
+			e.unsupported("regexp %q on a symbolic-length string", ro.pattern)
+		}
+		if _, anchored := groupOffsets(ro.re); !anchored {
+			sre = "(re.++ re.all " + sre + " re.all)"
+		}
+		return e.tf.InRe(s.T, sre)
+	}
+}
